@@ -15,7 +15,8 @@ def jgroups (g : Groups) : J := .obj [
   ("g2", J.ofOpt .str g.g2), ("g3", J.ofOpt .str g.g3), ("g4", J.ofOpt .str g.g4)]
 
 def jresult (r : Banner.Result) : J := .obj [
-  ("banner", J.ofOpt jbanner r.banner), ("header", J.ofStrs r.header), ("unread", J.ofBytes r.unread)]
+  ("banner", J.ofOpt jbanner r.banner), ("header", J.ofStrs r.header), ("unread", J.ofBytes r.unread),
+  ("pending", jbl r.pending)]
 
 /-- all code points below `n` on which `p` holds (for the whitespace-table comparison) -/
 def codePointsWhere (p : Char → Bool) (n : Nat) : List Nat :=
@@ -41,7 +42,7 @@ def bannerOp (op : String) (args : List String) : Option J :=
   | "utf8.decode", [h] => do let b ← decBytes h; pure (jok (.str (utf8Decode b)))
   | "readlines", [h] => do let b ← decBytes h; pure (jok (J.ofStrs ((splitLines b).map lineText)))
   | "uspace.table", [] => pure (jok (.arr ((codePointsWhere isUSpace 0x110000).map J.nat)))
-  | "getbanner", [l] => do let cs ← decBytesList l; pure (jok (jresult (getBanner [] cs)))
+  | "getbanner", [l] => do let cs ← decBytesList l; pure (jok (jresult (getBanner [] [] cs)))
   | _, _ => none
 
 end SshAudit.Driver
